@@ -201,6 +201,19 @@ package bus
 //@   ensures !r.RWMutex.lockw && r.RWMutex.lockr == 0
 //@   ensures[C04] !at_unlock(has(r.services, m.Header.Service)) ==> from.errsent == old(from.errsent) + 1
 
+// Every accepted connection gets its own channel and its own, freshly built capability map (the
+// authenticated flag lives in that map: a map shared between connections would let one login
+// authenticate them all), and starts authenticated only when the caller says so (local pipes).
+//@ func DefaultCap() (result CapabilityMap)
+//@   tags C06
+//@   ensures[C06] result != nil && fresh(result) && !capAuthed(result)
+//@ func (s *server) handle(stream net.Stream, authenticated bool)
+//@   tags C06
+//@   requires s != nil && stream != nil
+//@   modifies everything
+//@   call EndPointFinalizer#1: assert[C06] fresh(context) && context.capability != nil && fresh(context.capability)
+//@   call EndPointFinalizer#1: assert[C06] capAuthed(context.capability) <==> authenticated
+
 // The per-connection consumer loop of server.handle: a message is handed to the router only on a
 // path where firewall accepted it (authenticated connection, or service 0).
 //@ func (s *server) handle$2()
